@@ -8,7 +8,7 @@
      database/sql/headers.go      sqlTipOfChainHeight, sqlVerifyHash, GetMerkleRootsConfirmations,
                                   getMerkleRootConfirmation, sqlGetSingleMerkleroot,
                                   getLastEvaluatedMerklerootHeight, sqlMerkleRootsFromHeight, GetMerkleRoots
-     repository/dto/headers.go    ToMerkleRootConfirmation (int32 arithmetic, int32(maxBlockHeightExcess))
+     repository/dto/headers.go    ToMerkleRootConfirmation (int64 comparison since fix 54e9bff)
      database/repository/header_repository.go   GetMerkleRootsConfirmations, GetMerkleRoots (end-of-data rule)
      transports/http/endpoints/api/merkleroots  verify / merkleroots handlers, convertState, batchSize parsing *)
 From Coq Require Import ZArith NArith List Bool.
@@ -24,8 +24,9 @@ Definition rh (r : row) : N * Z := (root r, height r).
 (* C02                                                                                        *)
 (* ------------------------------------------------------------------------------------------ *)
 
-(* Go int32(x) of a wider integer; int32 subtraction wraps the same way *)
-Definition wrap32 (z : Z) : Z := (z + 2147483648) mod 4294967296 - 2147483648.
+(* History: before fix 54e9bff ToMerkleRootConfirmation subtracted in int32 and compared with
+   int32(maxBlockHeightExcess); the model carried an explicit wrap32 and the statement was refuted for a configured
+   excess >= 2^31 (finding C02-excess-int32-wrap, now "fixed"; its witnesses stay in corpus/C02). *)
 
 (* sqlTipOfChainHeight: SELECT MAX(height) FROM headers WHERE header_state = 'LONGEST_CHAIN'
    (NULL - a scan error, answered 400 ErrGetChainTipHeight - when there is no such row) *)
@@ -44,14 +45,18 @@ Definition verify_hash (s : store) (rt : N) (h : Z) : option row :=
 
 Inductive confirmation := Confirmed (hash : N) | UnableToVerify | Invalid.
 
-(* getMerkleRootConfirmation + dto.ToMerkleRootConfirmation:
-     Hash.Valid                                                     -> CONFIRMED
-     BlockHeight > TipHeight && BlockHeight-TipHeight <= int32(excess) -> UNABLE_TO_VERIFY   (int32 arithmetic)
-     else                                                           -> INVALID *)
+(* getMerkleRootConfirmation + dto.ToMerkleRootConfirmation (as repaired by 54e9bff):
+     Hash.Valid                                                                   -> CONFIRMED
+     BlockHeight > TipHeight && int64(BlockHeight)-int64(TipHeight) <= int64(excess) -> UNABLE_TO_VERIFY
+     else                                                                         -> INVALID
+   Ranges assumed: BlockHeight is an int32 (JSON binding of the request; other values are refused with 400 before
+   this code runs) and TipHeight is an int32 (MAX(height) scanned into int32), so the int64 subtraction cannot
+   overflow and is the subtraction of Z; maxBlockHeightExcess is a Go int (64 bit) and int64(.) of it is the
+   identity, so ANY configured value - negative ones included - is compared exactly. *)
 Definition verify1 (s : store) (tipH : Z) (excess : Z) (it : N * Z) : confirmation :=
   match verify_hash s (fst it) (snd it) with
   | Some r => Confirmed (id r)
-  | None => if (tipH <? snd it) && (wrap32 (snd it - tipH) <=? wrap32 excess) then UnableToVerify else Invalid
+  | None => if (tipH <? snd it) && (snd it - tipH <=? excess) then UnableToVerify else Invalid
   end.
 
 (* one answer item: the request's root and height echoed, and the verdict *)
